@@ -50,6 +50,7 @@ structure RuneClass where
   digit : Bool
   space : Bool
   lower : Nat
+  isLower : Bool := false      -- `unicode.IsLower` (used by the sentence splitter of chunker.go)
   deriving Repr
 
 abbrev Classes := List (Nat × RuneClass)
